@@ -205,6 +205,227 @@ def framingOf (hs : List Header) : Except CreateErr Framing :=
           | none => if te.isSome then .chunked else .empty
       .ok ⟨kind, cl, ex⟩
 
+/-- the decisions of `new_request` for a request whose version the server does not speak (it is
+    answered with 505 and the connection goes on).  `new_request` honours the `upgrade` option of
+    the Connection header only for the versions the server speaks
+    (`connection_upgrade = version <= (1,1) && …`), so for a refused request the option is not
+    looked at (`up := false`): its body is framed by Transfer-Encoding / Content-Length like the
+    body of any other request, and skipped.  Everything else is as in `framingOf`
+    (Content-Length validity first, then Expect, then the reader choice). -/
+def framingOfRefused (hs : List Header) : Except CreateErr Framing :=
+  let te := findHeader hs b!"Transfer-Encoding"
+  if (hs.filter (·.is b!"Content-Length")).any (fun h => (strictContentLength h.value).isNone) then
+    .error .badContentLength
+  else
+    let cl : Option Nat :=
+      if te.isSome then none
+      else match findHeader hs b!"Content-Length" with
+        | some h => strictContentLength h.value
+        | none => none
+    let expect : Except CreateErr Bool :=
+      match findHeader hs b!"Expect" with
+      | none => .ok false
+      | some h => if eqIgnoreCase h.value b!"100-continue" then .ok true else .error .expectationFailed
+    match expect with
+    | .error e => .error e
+    | .ok ex =>
+      let kind : BodyKind :=
+        match cl with
+          | some n =>
+            if n = 0 then .empty
+            else if n ≤ Extracted.smallBodyLimit && !ex then .buffered n
+            else .limited n
+          | none => if te.isSome then .chunked else .empty
+      .ok ⟨kind, cl, ex⟩
+
+/-- the framing of a freshly parsed request: `new_request` looks at the `upgrade` option only when
+    `version <= (1,1)`, i.e. when the request is not going to be refused with 505. -/
+def framingFor (v : Version) (hs : List Header) : Except CreateErr Framing :=
+  if (⟨Extracted.maxVersion.1, Extracted.maxVersion.2⟩ : Version).lt v then framingOfRefused hs
+  else framingOf hs
+
+theorem framingFor_of_not_high (v : Version) (hs : List Header)
+    (hv : (⟨Extracted.maxVersion.1, Extracted.maxVersion.2⟩ : Version).lt v = false) :
+    framingFor v hs = framingOf hs := by
+  unfold framingFor; rw [hv]; rfl
+
+theorem framingFor_of_high (v : Version) (hs : List Header)
+    (hv : (⟨Extracted.maxVersion.1, Extracted.maxVersion.2⟩ : Version).lt v = true) :
+    framingFor v hs = framingOfRefused hs := by
+  unfold framingFor; rw [hv]; rfl
+
+/-- the upgrade option as `framingOf` sees it. -/
+def upgradeOption (hs : List Header) : Bool :=
+  match findHeader hs b!"Connection" with
+  | some h => containsSub (lower h.value) b!"upgrade"
+  | none => false
+
+/-- without the upgrade option the two framings are the same. -/
+theorem framingOfRefused_eq_of_upgradeOption_false (hs : List Header)
+    (hu : upgradeOption hs = false) : framingOfRefused hs = framingOf hs := by
+  unfold upgradeOption at hu
+  unfold framingOfRefused framingOf
+  simp only [hu]
+  rfl
+
+/-- when the first Connection header does not contain `upgrade`, or there is none, the two
+    framings are the same. -/
+theorem framingOfRefused_eq_of_no_upgrade (hs : List Header)
+    (hu : ∀ c, findHeader hs b!"Connection" = some c →
+      containsSub (lower c.value) b!"upgrade" = false) :
+    framingOfRefused hs = framingOf hs := by
+  apply framingOfRefused_eq_of_upgradeOption_false
+  unfold upgradeOption
+  cases hc : findHeader hs b!"Connection" with
+  | none => rfl
+  | some c => exact hu c hc
+
+/-- `framingOf` is `framingOfRefused` with the kind replaced by `.upgrade` when the upgrade option
+    is present: errors, declared length and expectation are the same. -/
+theorem framingOf_eq_refused (hs : List Header) :
+    framingOf hs =
+      match framingOfRefused hs with
+      | .error e => .error e
+      | .ok fr => .ok ⟨if upgradeOption hs then .upgrade else fr.kind, fr.bodyLength, fr.expectContinue⟩ := by
+  unfold framingOf framingOfRefused upgradeOption
+  generalize ((hs.filter (·.is b!"Content-Length")).any (fun h => (strictContentLength h.value).isNone)) = bad
+  generalize findHeader hs b!"Expect" = ex
+  generalize (match findHeader hs b!"Connection" with
+    | some h => containsSub (lower h.value) b!"upgrade"
+    | none => false) = up
+  cases bad
+  · cases ex with
+    | none => cases up <;> rfl
+    | some e =>
+      dsimp only
+      cases eqIgnoreCase e.value b!"100-continue" <;> cases up <;> rfl
+  · rfl
+
+private theorem kindOf_ne_upgrade (cl : Option Nat) (te x : Bool) :
+    (match cl with
+      | some n =>
+        if n = 0 then BodyKind.empty
+        else if n ≤ Extracted.smallBodyLimit && !x then .buffered n
+        else .limited n
+      | none => if te then .chunked else .empty) ≠ BodyKind.upgrade := by
+  cases cl with
+  | none => dsimp only; split <;> (intro h; cases h)
+  | some n =>
+    dsimp only
+    split
+    · intro h; cases h
+    · split <;> (intro h; cases h)
+
+/-- `framingOfRefused` never says `.upgrade`. -/
+theorem framingOfRefused_kind_ne_upgrade (hs : List Header) (fr : Framing)
+    (hf : framingOfRefused hs = .ok fr) : fr.kind ≠ .upgrade := by
+  unfold framingOfRefused at hf
+  generalize ((hs.filter (·.is b!"Content-Length")).any (fun h => (strictContentLength h.value).isNone)) = bad at hf
+  generalize findHeader hs b!"Expect" = ex at hf
+  cases bad
+  · cases ex with
+    | none => cases hf; exact kindOf_ne_upgrade _ _ false
+    | some e =>
+      dsimp only at hf
+      cases he : eqIgnoreCase e.value b!"100-continue" <;> rw [he] at hf
+      · cases hf
+      · cases hf; exact kindOf_ne_upgrade _ _ true
+  · cases hf
+
+/-- with the upgrade option, `framingOf` says `.upgrade` where `framingOfRefused` frames the body
+    by its headers; declared length and expectation are the same. -/
+theorem framingOf_of_refused_upgrade (hs : List Header) (fr : Framing)
+    (hu : upgradeOption hs = true) (hf : framingOfRefused hs = .ok fr) :
+    framingOf hs = .ok ⟨.upgrade, fr.bodyLength, fr.expectContinue⟩ := by
+  rw [framingOf_eq_refused, hf, hu]; rfl
+
+/-- the other direction: a result of `framingOf` gives the result of `framingOfRefused`, with the
+    same declared length and expectation, and the same kind unless `framingOf` says `.upgrade`. -/
+theorem framingOfRefused_of_framingOf (hs : List Header) (fr' : Framing) (hf : framingOf hs = .ok fr') :
+    ∃ fr, framingOfRefused hs = .ok fr ∧ fr.bodyLength = fr'.bodyLength ∧
+      fr.expectContinue = fr'.expectContinue ∧ fr.kind ≠ .upgrade ∧
+      (fr'.kind ≠ .upgrade → fr.kind = fr'.kind) := by
+  rw [framingOf_eq_refused] at hf
+  cases hr : framingOfRefused hs with
+  | error e => rw [hr] at hf; cases hf
+  | ok fr =>
+    rw [hr] at hf
+    cases hf
+    refine ⟨fr, rfl, rfl, rfl, framingOfRefused_kind_ne_upgrade hs fr hr, ?_⟩
+    dsimp only
+    cases upgradeOption hs
+    · intro _; rfl
+    · intro h; exact (h rfl).elim
+
+/-- the two framings fail on the same header lists, with the same error. -/
+theorem framingOfRefused_error_iff (hs : List Header) (e : CreateErr) :
+    framingOfRefused hs = .error e ↔ framingOf hs = .error e := by
+  rw [framingOf_eq_refused]
+  cases framingOfRefused hs with
+  | error e' => exact Iff.rfl
+  | ok fr => constructor <;> (intro h; cases h)
+
+/-- request creation fails for a refused version exactly when it fails for a spoken one. -/
+theorem framingFor_error_iff (v : Version) (hs : List Header) (e : CreateErr) :
+    framingFor v hs = .error e ↔ framingOf hs = .error e := by
+  unfold framingFor
+  split
+  · exact framingOfRefused_error_iff hs e
+  · exact Iff.rfl
+
+/-- a result of `framingFor` for a refused version is a result of `framingOfRefused`. -/
+theorem framingFor_ok_high (v : Version) (hs : List Header) (fr : Framing)
+    (hv : (⟨Extracted.maxVersion.1, Extracted.maxVersion.2⟩ : Version).lt v = true) :
+    framingFor v hs = .ok fr ↔ framingOfRefused hs = .ok fr := by
+  rw [framingFor_of_high v hs hv]
+
+/-- whatever the version: a result of `framingFor` has the declared length and expectation that
+    `framingOf` gives, and the same kind unless `framingOf` says `.upgrade`. -/
+theorem framingOf_of_framingFor (v : Version) (hs : List Header) (fr : Framing)
+    (hf : framingFor v hs = .ok fr) :
+    ∃ fr', framingOf hs = .ok fr' ∧ fr.bodyLength = fr'.bodyLength ∧
+      fr.expectContinue = fr'.expectContinue ∧ (fr'.kind ≠ .upgrade → fr.kind = fr'.kind) := by
+  unfold framingFor at hf
+  split at hf
+  · rw [framingOf_eq_refused, hf]
+    refine ⟨_, rfl, rfl, rfl, ?_⟩
+    dsimp only
+    cases upgradeOption hs
+    · intro _; rfl
+    · intro h; exact (h rfl).elim
+  · exact ⟨fr, hf, rfl, rfl, fun _ => rfl⟩
+
+/-- a framing other than `.upgrade` is the framing of the request whatever its version. -/
+theorem framingFor_of_framingOf_not_upgrade (v : Version) (hs : List Header) (fr : Framing)
+    (hf : framingOf hs = .ok fr) (hne : fr.kind ≠ .upgrade) : framingFor v hs = .ok fr := by
+  unfold framingFor
+  split
+  · obtain ⟨fr', hf', h1, h2, -, h3⟩ := framingOfRefused_of_framingOf hs fr hf
+    rw [hf']
+    have h3 := h3 hne
+    cases fr; cases fr'
+    simp only at h1 h2 h3
+    rw [h1, h2, h3]
+  · exact hf
+
+/-- the relation between the two framings: errors are the same; results have the same declared
+    length and expectation; the kinds differ only where `framingOf` says `.upgrade`. -/
+theorem framingOf_refused_rel (hs : List Header) :
+    match framingOfRefused hs, framingOf hs with
+    | .error e, .error e' => e = e'
+    | .ok fr, .ok fr' => fr.bodyLength = fr'.bodyLength ∧ fr.expectContinue = fr'.expectContinue ∧
+        (fr.kind = fr'.kind ∨ (fr'.kind = .upgrade ∧ upgradeOption hs = true)) ∧ fr.kind ≠ .upgrade
+    | _, _ => False := by
+  rw [framingOf_eq_refused]
+  cases hr : framingOfRefused hs with
+  | error e => rfl
+  | ok fr =>
+    refine ⟨rfl, rfl, ?_, framingOfRefused_kind_ne_upgrade hs fr hr⟩
+    dsimp only
+    cases upgradeOption hs
+    · exact Or.inl rfl
+    · exact Or.inr ⟨rfl, rfl⟩
+
 /-! ## Chunk decoder (chunked_transfer::Decoder) as a function of the remaining bytes -/
 
 /-- state of the body reader of one request. -/
